@@ -67,3 +67,31 @@ func VerifC16_RoundTrip() {
 		bl[1].Type == other.Type && bl[1].Name == other.Name && bl[1].Value == other.Value)
 	vfReach("round-tripped")
 }
+
+// VerifC16_QuotedNames: label names outside the classic syntax (any valid UTF-8 of up
+// to 2 (quick) / 3 (thorough) bytes: spaces, quotes, backslashes, braces, control
+// characters, multi-byte characters) are printed in quoted form; the UTF-8 parser reads
+// the printed matcher back to the identical name, operator and value.
+//
+//vf:quick unwind=80 decisions=1200 paths=1500000 arith=bv steps=20000000
+//vf:thorough unwind=100 decisions=1600 paths=20000000 arith=bv steps=60000000
+//vf:expect reach=quoted reach=plain
+func VerifC16_QuotedNames() {
+	n := 1 + vfChoice("len", 2+vfTier())
+	name := vfString("name", n)
+	vfAssume(utf8.ValidString(name))
+	op := labels.MatchType(vfChoice("op", 2)) // = and !=
+	m, err := labels.NewMatcher(op, name, "v\"1")
+	vfAssert("new-ok", err == nil)
+	text := m.String()
+	if len(text) > 0 && text[0] == '"' {
+		vfReach("quoted")
+	} else {
+		vfReach("plain")
+	}
+	back, perr := Matcher(text)
+	vfAssert("printed-form-parses", perr == nil)
+	if perr == nil {
+		vfAssert("round-trip-identical", back.Type == m.Type && back.Name == m.Name && back.Value == m.Value)
+	}
+}
